@@ -41,6 +41,9 @@ type SolveResult struct {
 	Syms     map[string]string `json:"-"`
 	Output   string  `json:"-"`
 	Where    string  `json:"-"` // source position (file:line) of the instruction the obligation belongs to
+	FullFile    string `json:"-"` // the full query (File is the relaxed one when only that had a model)
+	RelaxedFile string `json:"-"`
+	Retried     bool   `json:"-"` // decided by the second, uncontended pass (secondChance)
 }
 
 type solverSpec struct {
@@ -175,10 +178,10 @@ type solveAnswer struct {
 // solveOne races the solvers on the full query and one solver on the relaxed
 // query. unsat from anywhere wins immediately; sat from the full query wins
 // immediately; a relaxed sat is kept as a candidate until the full queries end.
-func solveOne(file, relaxedFile string, timeoutS int, which []solverSpec) solveAnswer {
+func solveOne(file, relaxedFile string, timeoutS int, which []solverSpec, allRelaxed bool) solveAnswer {
 	ctx, cancel := context.WithCancel(context.Background())
 	defer cancel()
-	ch := make(chan solveAnswer, len(which)+2)
+	ch := make(chan solveAnswer, len(which)+3)
 	n := 0
 	for _, s := range which {
 		s := s
@@ -197,10 +200,19 @@ func solveOne(file, relaxedFile string, timeoutS int, which []solverSpec) solveA
 			r, o, t := runSolver(ctx, solvers[0], relaxedFile, timeoutS)
 			ch <- solveAnswer{r, solvers[0].name + "(relaxed)", o, t, true}
 		}()
+		if allRelaxed {
+			// second pass: the machine is nearly idle, cvc5 gets the relaxed query at once
+			// instead of after z3 5.1.0 has given up
+			n++
+			go func() {
+				r, o, t := runSolver(ctx, solvers[2], relaxedFile, timeoutS)
+				ch <- solveAnswer{r, solvers[2].name + "(relaxed)", o, t, true}
+			}()
+		}
 		n++
 		go func() {
 			r, o, t := runSolver(ctx, solvers[1], relaxedFile, timeoutS)
-			if r != "sat" && r != "unsat" {
+			if r != "sat" && r != "unsat" && !allRelaxed {
 				// second opinion on the relaxed query
 				r2, o2, t2 := runSolver(ctx, solvers[2], relaxedFile, timeoutS)
 				if r2 == "sat" || r2 == "unsat" {
@@ -262,7 +274,7 @@ func solveAll(x *Exec, dir string, timeoutS int, par int, filter func(*Obligatio
 			relaxed = filepath.Join(dir, fmt.Sprintf("%s_%03d.relaxed.smt2", sanitize(x.short), i))
 			os.WriteFile(relaxed, []byte(rt), 0o644)
 		}
-		r := &SolveResult{Name: o.Name, Kind: o.Kind, Props: o.Props, SMTBytes: len(text), File: file, Canary: o.Canary, Safety: o.Safety, Clause: o.Clause, Line: o.Line, Func: o.Func, Syms: o.Syms, Where: x.shortPos(o.Pos)}
+		r := &SolveResult{Name: o.Name, Kind: o.Kind, Props: o.Props, SMTBytes: len(text), File: file, FullFile: file, RelaxedFile: relaxed, Canary: o.Canary, Safety: o.Safety, Clause: o.Clause, Line: o.Line, Func: o.Func, Syms: o.Syms, Where: x.shortPos(o.Pos)}
 		results = append(results, r)
 		wg.Add(1)
 		sem <- struct{}{}
@@ -273,7 +285,7 @@ func solveAll(x *Exec, dir string, timeoutS int, par int, filter func(*Obligatio
 			if o.Canary && to > 3 {
 				to = 3
 			}
-			a := solveOne(file, relaxed, to, solvers)
+			a := solveOne(file, relaxed, to, solvers, false)
 			r.Result, r.Solver, r.TimeS, r.Output, r.Relaxed = a.res, a.solver, a.secs, a.output, a.relaxed && a.res == "sat"
 			if a.res == "sat" {
 				r.Model = a.output
@@ -285,4 +297,49 @@ func solveAll(x *Exec, dir string, timeoutS int, par int, filter func(*Obligatio
 	}
 	wg.Wait()
 	return results
+}
+
+// secondChance re-solves, a few at a time and with a longer limit, obligations
+// that the first pass left without a proof and without a counter-model of the
+// full query (timeout, unknown, error, or only a candidate model of the relaxed
+// query). In the first pass up to 3 functions x 4 obligations x 5 solver
+// processes share the machine, so an obligation that needs 7 s of solver time
+// alone can miss a 10 s limit on a loaded or slower host: that is "undecided so
+// far", not "the property is violated". Only unsat changes an answer here, so
+// nothing is discharged that a solver did not prove; an obligation that is
+// really false stays undischarged after the second pass and is reported.
+func secondChance(rs []*SolveResult, timeoutS int) {
+	var wg sync.WaitGroup
+	sem := make(chan struct{}, 2)
+	start := time.Now()
+	for _, r := range rs {
+		if time.Since(start) > 15*time.Minute {
+			break // a tree that breaks this many obligations is reported from the first pass
+		}
+		if r == nil || r.Canary || r.Result == "unsat" || (r.Result == "sat" && !r.Relaxed) || r.FullFile == "" {
+			continue
+		}
+		r := r
+		wg.Add(1)
+		sem <- struct{}{}
+		go func() {
+			defer wg.Done()
+			defer func() { <-sem }()
+			a := solveOne(r.FullFile, r.RelaxedFile, timeoutS, solvers, true)
+			switch {
+			case a.res == "unsat":
+				r.Result, r.Solver, r.TimeS, r.Output, r.Relaxed, r.Model, r.File = "unsat", a.solver, a.secs, a.output, false, "", r.FullFile
+				r.Retried = true
+			case a.res == "sat" && !a.relaxed:
+				// a real counter-model of the full query
+				r.Result, r.Solver, r.TimeS, r.Output, r.Relaxed, r.Model, r.File = "sat", a.solver, a.secs, a.output, false, a.output, r.FullFile
+				r.Retried = true
+			case a.res == "sat" && r.Result != "sat":
+				// a candidate model where the first pass had none: keep it for the replay
+				r.Result, r.Solver, r.TimeS, r.Output, r.Relaxed, r.Model, r.File = "sat", a.solver, a.secs, a.output, true, a.output, r.RelaxedFile
+				r.Retried = true
+			}
+		}()
+	}
+	wg.Wait()
 }
